@@ -2,6 +2,7 @@
 """prints the markdown table of seeded changes (for DESIGN.md section 0.5) from /verif/seeded/*/meta.json"""
 import glob, json, os
 rows = []
+first = json.load(open('/verif/seeded/first_run.json'))
 for d in sorted(glob.glob('/verif/seeded/*')):
     try:
         m = json.load(open(os.path.join(d, 'meta.json')))
@@ -13,7 +14,9 @@ for d in sorted(glob.glob('/verif/seeded/*')):
     if len(summ) > 230:
         summ = summ[:227] + '...'
     status = 'confirmed' if v.get('confirmed') else m.get('status', 'not confirmed')
-    rows.append(f"| {os.path.basename(d)} | {m.get('property')} | {summ} | {status} | {firing} |")
-print('| seeded/ | breaks | change | status | caught by |')
-print('|---|---|---|---|---|')
+    fr = first.get(os.path.basename(d), {})
+    fr_txt = fr.get('first_run', '?') + (' -> ' + ', '.join(fr['strengthened']) if fr.get('strengthened') else '')
+    rows.append(f"| {os.path.basename(d)} | {m.get('property')} | {summ} | {status} | {fr_txt} | {firing} |")
+print('| seeded/ | breaks | change | status | first run -> strengthening | caught now by |')
+print('|---|---|---|---|---|---|')
 print('\n'.join(rows))
